@@ -206,7 +206,7 @@ def run(chk):
     rng.shuffle(cases)
     # focused scopes: few items, more of them per document, always replayed in full
     for name, idx, n in (("split extension blocks", {9, 42, 43, 44}, 5), ("supplied enum / scalar, extended", {5, 8, 14, 37}, 5),
-                         ("covariant list fields", {38, 39, 40, 41}, 4), ("root operation types", {9, 10, 25, 26, 31, 32}, 5), ("interface / input extension fields", {2, 6, 33, 34, 35}, 5),
+                         ("covariant list fields", {38, 39, 40, 41}, 4), ("root operation types", {9, 10, 25, 26, 31, 32}, 5), ("conventional root names on non-object types", {10, 9, 32, 56, 57}, 4), ("interface / input extension fields", {2, 6, 33, 34, 35}, 5),
                          ("directive definitions next to extensions", {5, 6, 14, 15, 45, 46, 47, 50}, 5), ("recursive defaults and integer bounds", {7, 48, 49}, 4),
                          ("invalid: non-interfaces implemented, duplicate values, output types as arguments, scalar extensions", {5, 9, 51, 52, 53, 54, 55}, 3)):
         cfg = tlc.cfg(constants={"MaxItems": n, "MenuIdx": idx, "Slice": 0, "NSlices": 1}, invariants=["Emit", "OrderFree"])
